@@ -273,6 +273,74 @@ pub fn top_down(ctx: &Ctx) -> Report {
     r
 }
 
+/// C06 in wide managers: formulas over eight table variables placed at labels that collide modulo 32 / 64 inside
+/// managers of 40 to 300 variables (the configurations of wide.rs): a three-clause formula over every triple, a
+/// chain and a parity-like formula over all eight; both stores; the result may mention table variables only
+pub fn top_down_wide(ctx: &Ctx) -> Report {
+    let cfgs = crate::props::wide::configs(ctx);
+    let mut r = par_run(ctx, &cfgs, |_, cfg| {
+        let mut rep = Report::default();
+        rep.exhaustive = true;
+        let n = cfg.labels.len();
+        let w = cfg.width;
+        let mut forms: Vec<(String, Vec<Clause>)> = Vec::new();
+        for i in 0..n {
+            for j in i + 1..n {
+                for k in j + 1..n {
+                    forms.push((format!("(x{i}|x{j})(!x{i}|x{k})(!x{j}|!x{k}|x{i})"), vec![vec![(i, true), (j, true)], vec![(i, false), (k, true)], vec![(j, false), (k, false), (i, true)]]));
+                    if (i + j + k) % 3 == 0 {
+                        forms.push((format!("(x{i}|x{j})(x{k}|!x{i})(x{j}|x{k})(!x{i}|!x{j}|!x{k})"), vec![vec![(i, true), (j, true)], vec![(k, true), (i, false)], vec![(j, true), (k, true)], vec![(i, false), (j, false), (k, false)]]));
+                    }
+                }
+            }
+        }
+        forms.push(("implication chain over the table variables".into(), (0..n - 1).map(|i| vec![(i, false), (i + 1, true)]).collect()));
+        forms.push(("pairs (x_i | x_{i+4}) and (!x_i | !x_{i+1})".into(), (0..4).map(|i| vec![(i, true), (i + 4, true)]).chain((0..n - 1).map(|i| vec![(i, false), (i + 1, false)])).collect()));
+        let order: Vec<VarLabel> = (0..w).map(|x| VarLabel::new(if cfg.reversed { w - 1 - x } else { x } as u64)).collect();
+        rsdd::verif::set_table_capacity(4);
+        let b1 = StandardDecisionNNFBuilder::new(VarOrder::new(&order));
+        let b2 = SemanticDecisionNNFBuilder::<{ primes::U64_LARGEST }>::new(VarOrder::new(&order));
+        rsdd::verif::set_table_capacity(0);
+        for (name, clauses) in forms.iter() {
+            let want = big_of_cnf(clauses, n);
+            let wide: Vec<Clause> = clauses.iter().map(|c| c.iter().map(|&(v, p)| (cfg.labels[v], p)).collect()).collect();
+            let mut cnf_clauses: Vec<Vec<rsdd::repr::Literal>> = wide.iter().map(|c| c.iter().map(|&l| to_lit(l)).collect()).collect();
+            // the formula is over the whole manager: a tautological clause on the last label fixes the variable count
+            cnf_clauses.push(vec![rsdd::repr::Literal::new(VarLabel::new((w - 1) as u64), true), rsdd::repr::Literal::new(VarLabel::new((w - 1) as u64), false)]);
+            let cnf = rsdd::repr::Cnf::new(&cnf_clauses);
+            let case = json!({"kind": "long_cnf", "family": name, "wide": cfg.json()});
+            rep.states += 1;
+            for (store, res) in [("standard", guarded(|| b1.compile_cnf_topdown(&cnf))), ("hash-identified", guarded(|| b2.compile_cnf_topdown(&cnf)))] {
+                rep.transitions += 1;
+                rep.evaluations += 1;
+                let what = format!("[wide manager {}] {} , {} store", cfg.json(), name, store);
+                match res {
+                    Err(e) => rep.violation("topdown:panic", format!("{}: compile_cnf_topdown panicked: {}", what, e), case.clone()),
+                    Ok(p) => {
+                        if p.is_false() != want.is_false() {
+                            rep.violation("topdown:false-constant", format!("{}: the result is the false constant = {}, the formula is unsatisfiable = {}", what, p.is_false(), want.is_false()), case.clone());
+                            continue;
+                        }
+                        match bigtt::bdd_big(p, n, &|l| cfg.labels.iter().position(|&x| x == l)) {
+                            Ok(g) if g == want => {}
+                            Ok(g) => rep.violation("topdown:wrong-models", format!("{}: the result has {} models over the table variables, the formula {}", what, g.count(), want.count()), case.clone()),
+                            Err(e) => rep.violation("topdown:wrong-models", format!("{}: {}", what, e), case.clone()),
+                        }
+                    }
+                }
+            }
+            if rep.n_violations > 8 {
+                break;
+            }
+        }
+        rep.traces += 1;
+        rep
+    });
+    r.bound("wide_managers", json!({"configurations": cfgs.iter().map(|c| c.json()).collect::<Vec<_>>(), "formulas": "a three-clause formula over every triple of table variables, a four-clause one over every third triple, a chain and a pairing formula over all eight; both stores"}));
+    r.add_extra("wide_manager_topdown_compilations", r.transitions);
+    r
+}
+
 /// some path decides a variable twice (memoised per node on the set of variables above is exponential in general;
 /// the diagrams here have at most 10 variables, so a path enumeration with an early exit is affordable)
 fn twice(p: BddPtr) -> Option<String> {
@@ -298,7 +366,7 @@ fn twice(p: BddPtr) -> Option<String> {
 
 pub fn replay(ctx: &Ctx, case: &Value, topdown: bool) -> Option<Report> {
     if case["kind"].as_str() == Some("long_cnf") {
-        Some(if topdown { top_down(ctx) } else { bottom_up(ctx) })
+        Some(if topdown { if case.get("wide").is_some() { top_down_wide(ctx) } else { top_down(ctx) } } else { bottom_up(ctx) })
     } else {
         None
     }
